@@ -8,6 +8,9 @@ Line-protocol driver for the blazer / Sequential-ordering model (property C16).
       reply  T / F   (the decidable perfect-matching predicate used by the theorems)
   seq <lhs>:<read>,<read>..;<lhs>:..;..
       reply  names=..;im=<bits>;isseq=T|F;res=ok:[..]|err:bad;state=<lhs>:<reads>;..
+  split <qids of eq 0>;<qids of eq 1>;.. | <eids> | <can be exogenized> | <exogenized> | <endogenized> | <rp> | <cp>
+      reply  W=<unknown qids>;M=<bits of the steady incidence matrix>;B=<blocks>
+  (seq / seqops states end in ;valid=T|F -- the executable `SeqValid` of the theorems on the state)
   seqops <eqs as for seq> | <op> | <op> ..     op: `r <perm>` reorder_equations, `s` sequentialize, `c` copy
       reply  <state> | res=..;<state> | ..      state: names=..;im=..;isseq=..;state=..
 -/
@@ -94,7 +97,7 @@ def doSeq (m : SModel) : String :=
     ";res=" ++ (match res with
       | .ok o => "ok:[" ++ csv (o.map toString) ++ "]"
       | .error _ => "err:bad") ++
-    ";state=" ++ ";".intercalate (m'.map showSEq)
+    ";state=" ++ ";".intercalate (m'.map showSEq) ++ ";valid=" ++ showBool (seqValidB m')
 
 def seqOp? (s : String) : Option SOp :=
   match words s with
@@ -110,7 +113,7 @@ def showState (m : SModel) : String :=
   let bits := String.join ((List.range m.length).map fun i =>
     String.join ((List.range names.length).map fun j => if im i j then "1" else "0"))
   "names=" ++ csv (names.map toString) ++ ";im=" ++ bits ++ ";isseq=" ++ showBool (isSequential m) ++
-    ";state=" ++ ";".intercalate (m.map showSEq)
+    ";state=" ++ ";".intercalate (m.map showSEq) ++ ";valid=" ++ showBool (seqValidB m)
 
 /-- one reply segment per call: outcome of the call, then the observable state afterwards -/
 def doSeqOps : SModel → List SOp → List String
@@ -124,6 +127,22 @@ def doSeqOps : SModel → List SOp → List String
       | .copy => "ok"
     let m' := applyOp m op
     ("res=" ++ res ++ ";" ++ showState m') :: doSeqOps m' rest
+
+def intLists? (s : String) : Option (List (List Int)) :=
+  if nosp s = "" || nosp s = "-" then some [] else (s.splitOn ";").mapM intList?
+
+def showBits (m : List (List Bool)) : String :=
+  String.join (m.map fun row => String.join (row.map fun b => if b then "1" else "0"))
+
+/-- `split_into_blocks`: the unknowns, the steady incidence matrix, the blocks -/
+def doSplit (tokens : List (List Int)) (eids canExo exo endo : List Int) (rp cp : List Nat) : String :=
+  let w := wrtQids canExo exo endo
+  let m := steadyInc tokens w
+  "W=" ++ csv (w.map toString) ++ ";M=" ++ showBits m ++ ";B=" ++
+    (match splitIntoBlocks tokens eids canExo exo endo rp cp with
+     | .ok bs => String.join (bs.map showIdBlock)
+     | .error .shape => "err:shape"
+     | .error _ => "err:bad")
 
 def step (line : String) : String :=
   match words line with
@@ -146,6 +165,13 @@ def step (line : String) : String :=
       if bs.length ≠ n * n then "bad-op"
       else showBool (hasPM (incOf (chunk n n bs)) (List.range n) (List.range n))
     | _, _ => "bad-op"
+  | "split" :: rest =>
+    match (" ".intercalate rest).splitOn "|" with
+    | [t, e, c, x, n, rp, cp] =>
+      match intLists? t, intList? e, intList? c, intList? x, intList? n, natList? rp, natList? cp with
+      | some t, some e, some c, some x, some n, some rp, some cp => doSplit t e c x n rp cp
+      | _, _, _, _, _, _, _ => "bad-op"
+    | _ => "bad-op"
   | "seqops" :: rest =>
     match (" ".intercalate rest).splitOn "|" with
     | body :: ops =>
